@@ -63,6 +63,56 @@ type c20KV struct{ k, v []byte }
 
 var c20Pop *c20Population
 
+// set by the migration cases: the two chains come from two app.Setup calls
+var c20SeparateSetups bool
+
+// c20MatchForeignAccounts renames, in bb, every address that holds something on one side only to the address on the other side
+// that holds exactly the same coins (the random genesis account of app.Setup); unmatched ones stay and are reported as differences.
+func c20MatchForeignAccounts(ba, bb map[string]string) {
+	holdings := func(m map[string]string, other map[string]string) map[string][]string {
+		addrs := map[string]bool{}
+		for k := range other {
+			addrs[strings.SplitN(k, "/", 2)[0]] = true
+		}
+		out := map[string][]string{}
+		for k, v := range m {
+			p := strings.SplitN(k, "/", 2)
+			if !addrs[p[0]] {
+				out[p[0]] = append(out[p[0]], p[1]+"="+v)
+			}
+		}
+		for a := range out {
+			sort.Strings(out[a])
+		}
+		return out
+	}
+	ha, hb := holdings(ba, bb), holdings(bb, ba)
+	used := map[string]bool{}
+	var bs []string
+	for b := range hb {
+		bs = append(bs, b)
+	}
+	sort.Strings(bs)
+	var as []string
+	for a := range ha {
+		as = append(as, a)
+	}
+	sort.Strings(as)
+	for _, b := range bs {
+		for _, a := range as {
+			if !used[a] && strings.Join(ha[a], ",") == strings.Join(hb[b], ",") {
+				used[a] = true
+				for _, dv := range hb[b] {
+					d := strings.SplitN(dv, "=", 2)
+					bb[a+"/"+d[0]] = d[1]
+					delete(bb, b+"/"+d[0])
+				}
+				break
+			}
+		}
+	}
+}
+
 // is this genesis key (= module name) one of the 15 DeFi modules?
 func c20IsDefi(name string) bool {
 	for _, s := range c20Stores {
@@ -889,7 +939,9 @@ func TestC20(t *testing.T) {
 	tr.Set("continuation_matrix", matrix)
 }
 
-func c20RunCase(t *testing.T, tr *Trace, cs c20Case) {
+// c20BuildWorld drives a fresh application through the construction blocks of a case (everything up to, not including, the end of
+// the last block); the construction is deterministic: two worlds of one case are identical
+func c20BuildWorld(t *testing.T, tr *Trace, cs c20Case, report bool) *c20World {
 	a := chain.Setup(t, false)
 	h := a.LastBlockHeight() + 1
 	now := time.Unix(2000000000, 0).UTC()
@@ -897,7 +949,6 @@ func c20RunCase(t *testing.T, tr *Trace, cs c20Case) {
 	for i := 1; i <= 6; i++ {
 		w.u = append(w.u, c20Addr(i))
 	}
-	tr.Line("gen.begin", cs.name, u(seed()))
 	w.buildOracle()
 	w.buildBase()
 	w.buildLiquidity()
@@ -915,13 +966,23 @@ func c20RunCase(t *testing.T, tr *Trace, cs c20Case) {
 	}
 	w.buildLiquidityPending()
 	for _, f := range w.fail {
+		if !report {
+			break
+		}
 		if os.Getenv("C20_VERBOSE") != "" {
 			t.Logf("BUILD FAIL %s: %s", cs.name, f)
 		}
 		tr.Line("gen.note", "build step failed: "+strings.ReplaceAll(f, "\t", " "))
 	}
-	h = w.ctx.BlockHeight()
-	now = w.ctx.BlockTime()
+	return w
+}
+
+func c20RunCase(t *testing.T, tr *Trace, cs c20Case) {
+	tr.Line("gen.begin", cs.name, u(seed()))
+	w := c20BuildWorld(t, tr, cs, true)
+	a := w.app
+	h := w.ctx.BlockHeight()
+	now := w.ctx.BlockTime()
 	a.EndBlock(abci.RequestEndBlock{Height: h})
 	a.Commit()
 
@@ -1087,7 +1148,13 @@ func c20RunCase(t *testing.T, tr *Trace, cs c20Case) {
 	tr.Line("gen.note", "workload runs on a second re-imported chain with the oracle validation result re-established")
 	b = b2
 	ctxs[1] = begin(b, "B2")
-	ops := c20Continuation(w.u)
+	c20RunContinuation(tr, w.u, a, b, ctxs, hdr)
+}
+
+// c20RunContinuation applies the continuation workload to both chains (block `hdr` has begun on both), processes two more blocks
+// (one a day later) and compares all balances.
+func c20RunContinuation(tr *Trace, us []sdk.AccAddress, a, b *chain.App, ctxs [2]sdk.Context, hdr tmproto.Header) {
+	ops := c20Continuation(us)
 	c20ContApp = a
 	defer func() { c20ContApp = nil }()
 	for _, op := range ops {
@@ -1104,7 +1171,7 @@ func c20RunCase(t *testing.T, tr *Trace, cs c20Case) {
 			tr.Count("cont:A-err")
 		}
 	}
-	hdr2 := tmproto.Header{Height: exp.Height + 1, Time: hdr.Time.Add(25 * time.Hour)}
+	hdr2 := tmproto.Header{Height: hdr.Height + 1, Time: hdr.Time.Add(25 * time.Hour)}
 	for i, app := range []*chain.App{a, b} {
 		p, m := try(func() {
 			app.EndBlock(abci.RequestEndBlock{Height: hdr.Height})
@@ -1118,6 +1185,11 @@ func c20RunCase(t *testing.T, tr *Trace, cs c20Case) {
 		ctxs[i] = app.BaseApp.NewContext(false, hdr2)
 	}
 	ba, bb := c20Balances(a, ctxs[0]), c20Balances(b, ctxs[1])
+	if c20SeparateSetups {
+		// two applications from two app.Setup calls (migration cases) differ in the randomly generated genesis / validator account:
+		// accounts that exist on one side only are matched by what they hold
+		c20MatchForeignAccounts(ba, bb)
+	}
 	keys := map[string]bool{}
 	for k := range ba {
 		keys[k] = true
